@@ -52,6 +52,16 @@ CHECKS = {
         "recover (content not reset) is refuted at design level. The real library executes each history in one process on one "
         "goroutine and every call must produce the specification's bytes and error, the second A identical to the first.",
    design_ref="DESIGN.md §5 C10", note=EXEC_TRUST + " sync.Pool reuse on one goroutine is likely but not guaranteed by Go."),
+ "C12": dict(
+   technique="TLA+ JetExec (Raise with class and statement id, Unwind, ErrorPrefix by construction of `out`) model-checked by TLC "
+             "over Gen_C12 (failure class x position x file/nesting); every behaviour replayed on the real interpreter with a "
+             "catalogue of concrete failing expressions, the error text checked for file and 1-based line",
+   text="TLC enumerates 32 failure classes x 12 positions inside a statement x wrapper paths that move the failing action into an "
+        "included file, an imported block, a block body, a range, a try, an exec'd template or an extended layout, with a second "
+        "execution on the recycled Runtime; the specification yields the exact output prefix and the statement that fails. The "
+        "real library must return an error (never panic), name that statement's file and line (the concretiser puts every "
+        "statement on its own line) and have written exactly the prefix.",
+   design_ref="DESIGN.md §5 C12", note=EXEC_TRUST + " Errors raised inside called Go functions (jet.Func built-ins, user funcs) are only required to be returned, not to carry file:line."),
  "C13": dict(
    technique="TLA+ JetExec (small-step interpreter machine with explicit Go panic/defer unwinding) model-checked by TLC over "
              "generated program families (Gen_C13); every terminated behaviour concretised to Jet source and replayed on the real "
